@@ -175,6 +175,12 @@ def run_race(i):
         env = dict(TSAN_ENV)
         env["OVNI_TRACEDIR"] = os.path.join(wd, "trace")
         env["OVNI_VERIF_DELAY"] = str(rng.randint(1, 10 ** 6))
+        mixed = i % 3 == 2
+        if mixed:
+            env["RACEDRV_MIXED"] = "1"
+        if i % 2:
+            env["OVNI_TMPDIR"] = os.path.join(wd, "tmp")
+        res["mixed"] = mixed
         r = core.run_retry([race, str(n)], env=env, cwd=wd, timeout=120)
         if r.timeout:
             res["inconclusive"] = "race driver timeout"; return res
@@ -184,7 +190,7 @@ def run_race(i):
                 continue
             res["viol"].append(("tsan:" + key, "ThreadSanitizer report inside libovni (init/fini race)", {"report": block[:3000]}))
         m1 = re.search(r"INIT winners=(\d+) refused=(\d+) winner=(-?\d+)", r.out)
-        m2 = re.search(r"FINI winners=(\d+) refused=(\d+) winner=(-?\d+)", r.out)
+        m2 = re.search(r"FINI winners=(\d+) refused=(\d+) winner=(-?\d+) reinit=(\d+)", r.out)
         if not m1:
             res["inconclusive"] = "race driver printed nothing: " + r.err[-200:]; return res
         w, rf = int(m1.group(1)), int(m1.group(2))
@@ -199,10 +205,14 @@ def run_race(i):
         if rf and ndiag < rf:
             res["viol"].append(("refusal-without-diagnostic", "%d refusals, %d diagnostics" % (rf, ndiag), {}))
         if m2:
-            w2, rf2 = int(m2.group(1)), int(m2.group(2))
-            if w2 <= 1 and w2 + rf2 < n:
-                res["inconclusive"] = "only %d of %d fini racers reported" % (w2 + rf2, n); return res
-            if w2 != 1 or rf2 != n - 1:
+            w2, rf2, reinit = int(m2.group(1)), int(m2.group(2)), int(m2.group(4))
+            if reinit:
+                res["viol"].append(("proc-init-accepted-during-or-after-fini",
+                                    "%d of the ovni_proc_init calls racing ovni_proc_fini returned instead of being refused"
+                                    % reinit, {"stdout": r.out}))
+            if w2 <= 1 and w2 + rf2 + reinit < n:
+                res["inconclusive"] = "only %d of %d fini racers reported" % (w2 + rf2 + reinit, n); return res
+            if w2 != 1 or rf2 + reinit != n - 1:
                 res["viol"].append(("proc-fini-not-exactly-once", "%d threads raced ovni_proc_fini: %d returned, %d refused"
                                     % (n, w2, rf2), {"stdout": r.out}))
             res["winner"] = (int(m1.group(3)), int(m2.group(3)))
